@@ -244,16 +244,22 @@ func checkAllocators(c *Ctx, rule string) {
 	h := c.P.Func("tcp.newTCPDriver")
 	if h != nil {
 		found := false
-		for _, b := range h.Blocks {
-			for _, in := range b.Instrs {
-				if call, ok := in.(*ssa.Call); ok {
-					if cal := call.Common().StaticCallee(); cal != nil && core.FuncName(cal) == "packets.AllocPacketID" {
-						paths, _ := core.EnumPaths(h, b, 100)
-						for _, pa := range paths {
-							env := core.NewEnv(c.P, pa)
-							a := env.Term(call.Common().Args[0])
-							found = true
-							R.Check(strings.HasSuffix(a.String(), ".MaxTTL"), rule, "tcp.newTCPDriver#alloc-size", call.Pos(), core.FuncName(h), "block size = config.MaxTTL", "IP-ID block size is "+a.String()+", not the run's MaxTTL")
+		// in the constructor or a helper of its package it delegates the allocation to
+		for _, hh := range ModReach(c.P, h) {
+			if core.FuncPkg(hh) != core.FuncPkg(h) {
+				continue
+			}
+			for _, b := range hh.Blocks {
+				for _, in := range b.Instrs {
+					if call, ok := in.(*ssa.Call); ok {
+						if cal := call.Common().StaticCallee(); cal != nil && core.FuncName(cal) == "packets.AllocPacketID" {
+							paths, _ := core.EnumPaths(hh, b, 100)
+							for _, pa := range paths {
+								env := core.NewEnv(c.P, pa)
+								a := env.Term(call.Common().Args[0])
+								found = true
+								R.Check(strings.HasSuffix(a.String(), ".MaxTTL"), rule, "tcp.newTCPDriver#alloc-size", call.Pos(), core.FuncName(hh), "block size = config.MaxTTL", "IP-ID block size is "+a.String()+", not the run's MaxTTL")
+							}
 						}
 					}
 				}
@@ -375,6 +381,8 @@ func checkGlobals(c *Ctx) {
 		key := "run-path#shared-global[" + u.name + "]"
 		if why, ok := sharedGlobals[u.name]; ok {
 			R.OK("R11.3", key, u.in.Pos(), core.FuncName(u.fn), "reviewed: "+why)
+		} else if strings.HasPrefix(u.typ, "sync/atomic.") {
+			R.OK("R11.3", key, u.in.Pos(), core.FuncName(u.fn), "an atomic counter: its uses are decided by R11.2 (one Add per allocation)")
 		} else {
 			R.Fail("R11.3", key, u.in.Pos(), core.FuncName(u.fn), "package-level variable "+u.name+" ("+u.typ+") is reference-typed or used through its address on the run path and is not in the reviewed table: concurrent runs share whatever it holds")
 		}
